@@ -263,6 +263,17 @@ def run_case(case, seed):
                 r.close(key + ':fixed-point', vec(y), xs2, 1e-8)
             else:
                 r.fail(key + ':fixed-point:meta', str(meta_problem(y)))
+    # aliased inputs: the right-hand side object itself passed as initial guess == a distinct copy passed as initial guess
+    if not binding and case['op'] != 'kronint' and case['rb'] <= min(max_ranks(dims)[1:-1] + [case['rb']]):
+        with r.op(key + ':aliased-guess:call'):
+            STATE['mon'] = None
+            if meth == 'als':
+                y1 = sle.als(op, b, b, repeats=2, solver=solver); y2 = sle.als(op, b.copy(), b, repeats=2, solver=solver)
+            else:
+                y1 = sle.mals(op, b, b, repeats=2, solver=solver, threshold=thr, max_rank=mr); y2 = sle.mals(op, b.copy(), b, repeats=2, solver=solver, threshold=thr, max_rank=mr)
+            if meta_problem(y1) is None and meta_problem(y2) is None:
+                r.close(key + ':aliased-guess', vec(y1), vec(y2), 1e-10, 'initial_guess is right_hand_side')
+            r.true(key + ':aliased-guess:distinct-result', y1 is not b, 'the solver returned its argument')
     # the rank-truncation threshold of MALS must not leak into the micro solves: an ill-conditioned HPD operator (cond 1e6)
     # with threshold 1e-4; the exact solution (all singular ratios of its unfoldings > 1e-2) is still a fixed point
     if meth == 'mals' and not binding and case['op'] == 'dense' and c in (False, True):
